@@ -16,7 +16,7 @@ def run_hist_job(job):
     opts = job.get("opts", {})
     for ops in job["hists"]:
         ops = [tuple(o) if not isinstance(o, tuple) else o for o in ops]
-        top = core.new_scratch()
+        top = core.new_scratch(long_path=(part["evaluations"] % 2 == 1))
         try:
             run = rfrun.execute(cfg, ops, seed, top, snapshot_rejects=opts.get("snapshot_rejects", False),
                                 sparse_getters=opts.get("sparse_getters", False))
@@ -35,10 +35,11 @@ def run_hist_job(job):
                 errs += rfrun.oracle_counters(run)
             if "selfdesc" in oracles:
                 errs += rfrun.oracle_selfdesc(run, regen=opts.get("regen", True))
-            if "roundtrip" in oracles or "roundtrip_full" in oracles:
+            if "roundtrip" in oracles or "roundtrip_full" in oracles or "roundtrip_runs" in oracles:
                 try:
                     reader = drf.DigitalRFReader(top)
-                    e2, nr = rfrun.oracle_roundtrip(run, reader, "linear" if "roundtrip" in oracles else "full")
+                    e2, nr = rfrun.oracle_roundtrip(run, reader, "linear" if "roundtrip" in oracles else
+                                                    ("runs" if "roundtrip_runs" in oracles else "full"))
                     reader.close()
                     errs += e2
                     part["extra"]["reads"] = part["extra"].get("reads", 0) + nr
